@@ -85,9 +85,13 @@ def exchange(ctx, relay, ops_text, depth, multiple, expected, fault, wit):
                 pass
     # wait for the relay's bookkeeping of this connection
     rec = relay.records[-1]
-    for _ in range(2000):
+    for k_ in range(2400):
         if rec['done']:
             break
+        if k_ == 400:
+            # the client side is finished with this exchange; if its socket is still referenced somewhere (e.g. by the traceback of a
+            # failed constructor) the relay would wait for an EOF that only garbage collection brings: end the connection from here
+            rec['kill'] = True
         time.sleep(0.005)
     if not rec['done']:
         ctx.inconclusive_because('the relay did not finish its bookkeeping of a connection within 10 s (watchdog)')
